@@ -368,6 +368,95 @@ def rule_reader_appends(ctx):
         ctx.ob(R, "accumulator is only appended to", not bad and adds >= 1, "values are added with push/extend (%d site(s)); nothing replaces or removes earlier values" % adds if not bad and adds else
                "Reader::read_field modifies the caller's value list by %s: values of the same field read from an earlier record are lost, so valid serialisations of one message canonicalise differently" % (bad or "no append at all"), f.loc())
 
+def rule_order_is_total_on_fields(ctx):
+    R = "C09.10"
+    ctx.rule(R, "the order that sorts encoded collections is the order of the whole value: for every workspace struct contained in the key type of an ordered collection (BTreeMap / BTreeSet field of a roles / network / protobuf type) that implements Ord / PartialOrd, cmp / partial_cmp read every field that eq reads (derived impls do; a hand-written cmp that skips a field makes two unequal values compare Equal, so a BTreeMap / BTreeSet keyed by it - e.g. TimeoutQC.map, whose iteration order IS the canonical encoding - silently merges them: the bytes depend on insertion order and decoding loses an entry)")
+    import re
+    impls = {}
+    for f in ctx.F.fns:
+        if f.in_testonly():
+            continue
+        m = re.match(r"<(.+) as std::cmp::(Ord|PartialOrd|PartialEq)>::(cmp|partial_cmp|eq)$", f.qname)
+        if m and m.group(1).startswith(("zksync_consensus_roles", "zksync_consensus_crypto", "zksync_protobuf", "zksync_consensus_utils")):
+            impls.setdefault(m.group(1), {})[m.group(3)] = f
 
-RULES = [("C09.8", rule_reader_appends), ("C09.9", rule_reader_normalises), ("C09.1", rule_read_build_agree), ("C09.2", rule_no_unordered_iteration), ("C09.3", rule_no_narrowing), ("C09.4", rule_canonical_hash),
+    def fields_read(f, adt):
+        out = set()
+        for g in [f] + common.family(ctx, f, ("closure",)):
+            T = ctx.T(g)
+            for b in g.blocks:
+                for st in b["s"]:
+                    if st["k"] != "assign":
+                        continue
+                    for x in subterms(T.rvalue(st["r"])):
+                        if x[0] == "field" and x[1][0] in ("param", "downcast") or (x[0] == "field" and x[1][0] == "field"):
+                            out.add(x[2])
+                if b["t"]["k"] == "call" and "decl" in b["t"]["f"]:
+                    for a in T.args_of({"t": b["t"], "bb": 0}):
+                        for x in subterms(a):
+                            if x[0] == "field":
+                                out.add(x[2])
+        return out
+    # the types that matter: keys of ordered collections held by workspace ADTs, and everything those keys contain
+    keys = set()
+    for path, ad0 in ctx.F.adts.items():
+        if not path.startswith(("zksync_consensus_roles", "zksync_consensus_network", "zksync_protobuf")):
+            continue
+        for v in ad0.get("variants", []):
+            for fl in v["fields"]:
+                ty = ad0["_types"][fl["t"]].s
+                for m in re.finditer(r"BTree(?:Map|Set)<", ty):
+                    depth, i0 = 1, m.end()
+                    i = i0
+                    while i < len(ty) and depth > 0:
+                        if ty[i] == "<":
+                            depth += 1
+                        elif ty[i] == ">":
+                            depth -= 1
+                        elif ty[i] == "," and depth == 1:
+                            break
+                        i += 1
+                    keys.update(re.findall(r"zksync_[A-Za-z0-9_:]+", ty[i0:i]))
+    closure, st = set(), [k for k in keys if k in ctx.F.adts]
+    while st:
+        k = st.pop()
+        if k in closure:
+            continue
+        closure.add(k)
+        for v in ctx.F.adts[k].get("variants", []):
+            for fl in v["fields"]:
+                for q in re.findall(r"zksync_[A-Za-z0-9_:]+", ctx.F.adts[k]["_types"][fl["t"]].s):
+                    if q in ctx.F.adts and q not in closure:
+                        st.append(q)
+    ctx.floor(R, "types contained in keys of ordered collections", len(closure), 5)
+    n = 0
+    for adt, d in sorted(impls.items()):
+        if adt not in closure:
+            continue
+        ad = ctx.F.adts.get(adt)
+        if ad is None or len(ad.get("variants", [])) != 1:
+            continue            # enums: the derived impls dispatch on the discriminant; not decided here
+        flds = [x["name"] for x in ad["variants"][0]["fields"]]
+        if not flds or "eq" not in d:
+            continue
+        eqf = fields_read(d["eq"], adt) & set(flds)
+        for k in ("cmp", "partial_cmp"):
+            if k not in d:
+                continue
+            # PartialOrd that delegates to Ord (`Some(self.cmp(other))`) reads no field itself
+            Tk = ctx.T(d[k])
+            if k == "partial_cmp" and any(c["q"].endswith("Ord::cmp") and not c["q"].startswith("std::cmp::Ord::cmp") or (c["rq"] or "").endswith(" as std::cmp::Ord>::cmp") for c in Tk.calls()) and not (fields_read(d[k], adt) & set(flds)):
+                continue
+            got = fields_read(d[k], adt) & set(flds)
+            if not got and any(any(x == ("param", 1, x[2] if len(x) > 2 else None) or (x[0] == "param" and x[1] == 1) for x in a_) for c in Tk.calls() if c["q"].startswith("zksync_") for a_ in [Tk.args_of(c)]):
+                got = set(flds)         # the whole value is handed to a workspace function (e.g. compared by its encoding)
+            n += 1
+            miss = sorted(eqf - got)
+            ctx.ob(R, "%s::%s covers the fields of eq" % (adt.split("::")[-1], k), not miss, "compares %s" % sorted(got) if not miss else
+                   "%s::%s ignores %s, which eq compares: unequal values compare Equal, an ordered map / set keyed by this type (or by a type containing it) merges them and its encoding stops being canonical and lossless" % (adt.split("::")[-1], k, miss), d[k].loc())
+    ctx.floor(R, "ordering impls of key-contained structs examined", n, 5)
+
+
+
+RULES = [("C09.10", rule_order_is_total_on_fields), ("C09.8", rule_reader_appends), ("C09.9", rule_reader_normalises), ("C09.1", rule_read_build_agree), ("C09.2", rule_no_unordered_iteration), ("C09.3", rule_no_narrowing), ("C09.4", rule_canonical_hash),
          ("C09.5", rule_canonicaliser), ("C09.6", rule_schema_gate), ("C09.7", rule_codec_api)]
